@@ -36,8 +36,10 @@ def run(ctx):
     C.coq_obligation_violations(ctx, pr, "C16")
     ctx.seed_shift = 2
     n = 150 if ctx.tier == "quick" else 4000
+    # the whole constructor registry as updates: every constructor once (quick) / in three variants (thorough)
+    sweep = [("registry", "c16r", "random", "all1" if ctx.tier == "quick" else "all")]
     stats, validated, dis, distinct, samples, exh = L.run_batches(
-        ctx, "C16", "c16", n, [L.PINNED + "/pinned-c16.script"], ())
+        ctx, "C16", "c16", n, [L.PINNED + "/pinned-c16.script"], (), sweep)
     if ctx.tier == "thorough":
         L.coqchk(ctx, "C16", exh)
     return L.finish(ctx, "C16", pr, stats, validated, dis, distinct, samples, exh, RULE, L.PROJECTION)
